@@ -8,6 +8,7 @@ package c14
 import (
 	"bytes"
 	"context"
+	"errors"
 	"fmt"
 	"io"
 	"net"
@@ -23,6 +24,7 @@ import (
 
 	"github.com/KevoDB/kevo/pkg/common/log"
 	"github.com/KevoDB/kevo/pkg/engine"
+	"github.com/KevoDB/kevo/pkg/engine/interfaces"
 	"github.com/KevoDB/kevo/pkg/replication"
 	rpb "github.com/KevoDB/kevo/proto/kevo/replication"
 
@@ -69,6 +71,45 @@ type Node struct {
 	Mgr    *replication.Manager
 	Addr   string // primary: listen address; replica: the address it reports as its own
 	Joined bool
+	// ApplyFault (replicas, C14 only): when set, the manager is given a wrapper of
+	// the engine whose At-th replicated apply reports one transient error
+	ApplyFault *applyFault
+}
+
+// applyFault makes the At-th PutInternal/DeleteInternal call (what
+// replication.EngineApplier uses on a read-only replica engine) fail once.
+type applyFault struct {
+	At    int64
+	calls atomic.Int64
+	fired atomic.Bool
+}
+
+func (f *applyFault) hit() error {
+	if f.calls.Add(1) == f.At {
+		f.fired.Store(true)
+		return errors.New("transient storage error (injected once by the harness)")
+	}
+	return nil
+}
+
+// flakyEngine is the replica engine as the replication manager sees it.
+type flakyEngine struct {
+	*engine.EngineFacade
+	f *applyFault
+}
+
+func (e *flakyEngine) PutInternal(key, value []byte) error {
+	if err := e.f.hit(); err != nil {
+		return err
+	}
+	return e.EngineFacade.PutInternal(key, value)
+}
+
+func (e *flakyEngine) DeleteInternal(key []byte) error {
+	if err := e.f.hit(); err != nil {
+		return err
+	}
+	return e.EngineFacade.DeleteInternal(key)
 }
 
 // startPrimary opens the primary engine and starts a primary manager on a
@@ -193,12 +234,12 @@ func replicaConfig() *replication.ReplicaConfig {
 
 // startReplica opens (or reopens) the replica engine in dir and starts a
 // replica manager pointed at primaryAddr.
-func startReplica(name, dir string, cfg drive.Cfg, primaryAddr, ownAddr string, rc *replication.ReplicaConfig) (*Node, error) {
+func startReplica(name, dir string, cfg drive.Cfg, primaryAddr, ownAddr string, rc *replication.ReplicaConfig, af *applyFault) (*Node, error) {
 	eng, err := drive.Open(dir, cfg)
 	if err != nil {
 		return nil, fmt.Errorf("open %s engine: %w", name, err)
 	}
-	n := &Node{Name: name, Dir: dir, Cfg: cfg, Eng: eng, Addr: ownAddr}
+	n := &Node{Name: name, Dir: dir, Cfg: cfg, Eng: eng, Addr: ownAddr, ApplyFault: af}
 	if err := n.startReplicaMgr(primaryAddr, rc); err != nil {
 		return nil, err
 	}
@@ -209,7 +250,11 @@ func (n *Node) startReplicaMgr(primaryAddr string, rc *replication.ReplicaConfig
 	if rc == nil {
 		rc = replicaConfig()
 	}
-	m, err := replication.NewManager(n.Eng, &replication.ManagerConfig{
+	var eng interfaces.Engine = n.Eng
+	if n.ApplyFault != nil {
+		eng = &flakyEngine{EngineFacade: n.Eng, f: n.ApplyFault}
+	}
+	m, err := replication.NewManager(eng, &replication.ManagerConfig{
 		Enabled: true, Mode: replication.ReplicationModeReplica, PrimaryAddr: primaryAddr,
 		ListenAddr: n.Addr, ReplicaConfig: rc, ForceReadOnly: true,
 	})
